@@ -26,6 +26,9 @@ pub fn valid_history_assumptions() -> Vec<String> {
 pub fn c01(ctx: &Ctx) -> i32 {
     let mut rnd = Profile::c01();
     rnd.ops = (150, 250);
+    rnd.w_modify = 7; // "an incoming (or re-priced) order": re-pricing reaches the same matching path
+    rnd.w_create = 10;
+    rnd.w_place = 12;
     let mut rnd_deep = Profile::c01();
     rnd_deep.ops = (300, 600);
     rnd_deep.p_market = 0.08;
